@@ -1,3 +1,3 @@
 SPECIFICATION Spec
-INVARIANTS EachOptionItsOwnField SyntaxesAgree CacheAsymmetry DefaultsWhenUnset OnlyDocVarsSubstituted NoVarNoChange UnsetTakesDefaultInList OptionStaysInItsEntry EntriesIndependent
+INVARIANTS ExplicitZeroHonoured AcceptanceAgrees EachOptionItsOwnField SyntaxesAgree CacheAsymmetry DefaultsWhenUnset OnlyDocVarsSubstituted NoVarNoChange UnsetTakesDefaultInList OptionStaysInItsEntry EntriesIndependent ZeroHonouredInList
 CHECK_DEADLOCK FALSE
